@@ -59,6 +59,7 @@ func cmdCheck(args []string) int {
 	repo := fs.String("repo", "/repo", "repository root")
 	verif := fs.String("verif", "/verif", "verification root")
 	only := fs.String("only", "", "only functions whose key contains this")
+	caseF := fs.String("case", "", "only VCs whose name contains this")
 	keep := fs.Bool("keep", false, "keep the scratch directory")
 	dump := fs.Bool("dump", false, "print every obligation")
 	noEvidence := fs.Bool("no-evidence", false, "do not write the evidence file")
@@ -134,6 +135,9 @@ func cmdCheck(args []string) int {
 				}
 			}
 			for _, vc := range fvcs {
+				if *caseF != "" && !strings.Contains(vc.Name, *caseF) {
+					continue
+				}
 				vcs = append(vcs, vc)
 				for _, o := range vc.obls {
 					if tagset != nil && !o.Cover {
@@ -182,7 +186,7 @@ func cmdCheck(args []string) int {
 	}
 	genS := time.Since(start).Seconds() - loadS
 
-	d := &Discharger{dir: scratch, timeoutS: 20, seed: seed, par: 6}
+	d := &Discharger{dir: scratch, timeoutS: 20, seed: seed, par: 12}
 	if *tier == "thorough" {
 		d.timeoutS = 120
 	}
@@ -213,11 +217,34 @@ func report(eng *Engine, cfg *PropConfig, tier string, seed int, verif, repo str
 	bySolver := map[string]int{}
 	var failed []*Obligation
 	var perObl []map[string]interface{}
+	// a cover of a split function must be satisfiable in at least one case
+	coverKey := func(o *Obligation) string {
+		n := o.Name
+		if k := strings.Index(n, "#"); k >= 0 {
+			if e := strings.Index(n[k:], "::"); e >= 0 {
+				n = n[:k] + n[k+e:]
+			}
+		}
+		return n
+	}
+	coverSat := map[string]bool{}
+	for _, o := range obls {
+		if o.Cover && (o.Status == "cover-ok" || o.Status == "cover-unknown") {
+			coverSat[coverKey(o)] = true
+		}
+	}
+	sort.SliceStable(obls, func(i, j int) bool { return false })
+	var slow []*Obligation
+	slow = append(slow, obls...)
+	sort.Slice(slow, func(i, j int) bool { return slow[i].Ms > slow[j].Ms })
+	for i := 0; i < len(slow) && i < 5 && dump; i++ {
+		fmt.Printf("  slowest: %6dms %s %s\n", slow[i].Ms, slow[i].Solver, slow[i].Name)
+	}
 	for _, o := range obls {
 		solverMs += o.Ms
 		if o.Cover {
 			nCover++
-			if o.Status == "cover-ok" || o.Status == "cover-unknown" {
+			if coverSat[coverKey(o)] {
 				nCoverOK++
 			} else {
 				failed = append(failed, o)
